@@ -6,7 +6,9 @@ package harness
 
 import (
 	"context"
+	"crypto/sha256"
 	"fmt"
+	ics23 "github.com/cosmos/ics23/go"
 	"math/rand"
 	"strings"
 
@@ -90,6 +92,25 @@ func (w *World) proofBytes(ps *ProofSpec) []byte {
 		p := append([]byte{}, proof...)
 		p[len(p)/2] ^= 0x41
 		return p
+	case "leafop":
+		// a genuine existence proof whose leaf operation is rewritten: the value is no longer
+		// pre-hashed and the claimed value becomes the hash of the stored one, so every hash up to
+		// the root stays the same while the proof "shows" another value (it violates the proof spec)
+		var mp commitmenttypes.MerkleProof
+		if err := q.App.AppCodec().Unmarshal(proof, &mp); err != nil || len(mp.Proofs) == 0 || mp.Proofs[0].GetExist() == nil {
+			ps.Kind = "garbage"
+			return []byte{0xde, 0xad, 0xbe, 0xef}
+		}
+		ep := mp.Proofs[0].GetExist()
+		hv := sha256.Sum256(ep.Value)
+		ep.Value = hv[:]
+		ep.Leaf.PrehashValue = ics23.HashOp_NO_HASH
+		out, err := q.App.AppCodec().Marshal(&mp)
+		if err != nil {
+			ps.Kind = "garbage"
+			return []byte{0xde, 0xad, 0xbe, 0xef}
+		}
+		return out
 	}
 	return proof
 }
@@ -235,6 +256,13 @@ func (w *World) KSend(c *tibctesting.TestChain, p packettypes.Packet, dataTok st
 		nctx := c.GetContext()
 		if p.Sequence != nextBefore {
 			w.hit("C09", fmt.Sprintf("send-accepted-with-sequence-%d-but-next-was-%d", p.Sequence, nextBefore))
+		}
+		hop := p.DestinationChain
+		if p.RelayChain != "" {
+			hop = p.RelayChain
+		}
+		if w.ClientLatest(c, hop) == 0 {
+			w.hit("C09", fmt.Sprintf("send-accepted-although-no-light-client-of-the-next-hop hop=%s %s", hop, pkeyStr(p)))
 		}
 		if pk.GetNextSequenceSend(nctx, p.SourceChain, p.DestinationChain) != nextBefore+1 {
 			w.hit("C09", "next-sequence-not-incremented-by-one-after-send")
